@@ -1,7 +1,7 @@
 (* Proofs for property C01 (statements explained in Props/Properties_C01.v). *)
 From Coq Require Import NArith ZArith List Bool Lia.
 From F8 Require Import Codec.Bytes Codec.Meta Codec.Extract Codec.Decode Codec.Encode Codec.Render Codec.Example
-                       C02.Spec_C02 C02.WfC02 C02.AuxProofs C02.RenderProofs C02.EncodeProofs C01.Spec_C01.
+                       C02.Spec_C02 C02.WfC02 C02.AuxProofs C02.RenderProofs C02.EncodeProofs C01.Spec_C01 C01.WfC01 C01.FlatTheorem.
 Import ListNotations.
 Local Open Scope N_scope.
 
@@ -70,3 +70,8 @@ Proof.
   do 2 eexists. split; [apply render_default_ok; reflexivity|]. split; [vm_compute; reflexivity|].
   split; [vm_compute; reflexivity|]. split; [vm_compute; reflexivity|]. vm_compute. discriminate.
 Qed.
+
+Lemma c01_partial_nonvacuous_lemma :
+  render_ok ex_ctx /\ wf_msg ex_ctx ex_hb = true /\ fresh ex_hb = true /\ vals_canonical ex_ctx ex_hb = true /\
+  c01_flat ex_ctx ex_hb = true.
+Proof. split; [apply render_default_ok; reflexivity|]. repeat split; vm_compute; reflexivity. Qed.
